@@ -180,6 +180,77 @@ fn cold_src_job(head: Src, ops: Vec<Op1>) -> Job {
   })
 }
 
+
+/// A subscriber that stops being interested after `k` notifications: from then
+/// on `is_finished()` answers true (what `take(k)` and the other early-ending
+/// operators answer upstream once they have completed downstream).
+#[derive(Clone)]
+struct Sated {
+  probe: crate::probe::Probe,
+  k: usize,
+}
+
+impl rxrust::prelude::Observer<V, E> for Sated {
+  fn next(&mut self, v: V) {
+    self.probe.next(v)
+  }
+  fn error(self, e: E) {
+    self.probe.error(e)
+  }
+  fn complete(self) {
+    self.probe.complete()
+  }
+  fn is_finished(&self) -> bool {
+    self.probe.len() >= self.k
+  }
+}
+
+/// A basic source observed directly by a subscriber that reports itself
+/// finished after `k` notifications. The documented sequence of these sources
+/// does not depend on that answer except that the source may stop early: what
+/// arrives is a prefix of the documented items, at least `k` of them (or all),
+/// then the documented terminal, once. `on_complete`, `finalize` or
+/// `complete_status` placed above a `take` sit exactly in this position.
+fn sated_job(head: Src, k: usize, form: Form) -> Job {
+  use rxrust::prelude::*;
+  let pipe = Pipe::S(head.clone());
+  Job::new(format!("sated-after-{k} {form:?} {}", pipe.show()), move |_ch, obs| {
+    let r = Run::prepare(0, form);
+    let o = Sated { probe: r.probe.clone(), k };
+    match form {
+      Form::Local => {
+        build_local(&pipe, &r.cx).actual_subscribe(o);
+      }
+      Form::Threads => {
+        build_threads(&pipe, &r.cx).actual_subscribe(o);
+      }
+    }
+    obs.checks += 1;
+    let got = r.probe.seq();
+    if let Some(exp) = model::src(&head) {
+      let prefix = got.items.len() <= exp.items.len() && exp.items[..got.items.len()] == got.items[..];
+      let enough = got.items.len() >= k.min(exp.items.len());
+      if !(prefix && enough && got.t == exp.t && r.probe.grammar_ok()) {
+        obs.fail(
+          format!("seq:src:{}:to-finished-observer", src_name(&head)),
+          format!(
+            "{} observed by a subscriber that reports finished after {k} notifications: documented [{}], delivered [{}] (expected a prefix of at least {} items, then the documented terminal)",
+            pipe.show(),
+            fmt_notes(&exp.notes()),
+            fmt_notes(&r.probe.notes()),
+            k.min(exp.items.len())
+          ),
+        );
+      }
+    } else {
+      obs.unspecified += 1;
+    }
+    obs.delivered = r.probe.len() as u64;
+    obs.note_outcome(&r.probe.notes());
+    obs.log(|| format!("probe: [{}]", fmt_notes(&r.probe.notes())));
+  })
+}
+
 /// statically typed chains (no boxing between the stages) against the model of
 /// the same operator list: shows that `box_it` between stages is transparent
 fn typed_job(id: usize, len: usize) -> Job {
@@ -315,6 +386,14 @@ pub fn plan(tier: Tier) -> Plan {
       }
     }
   }
+  for s in cold_sources() {
+    // a script run by `create` goes through `Subscriber`, which is the piece
+    // that swallows notifications after a terminal: same expectation
+    for k in 0..3 {
+      jobs.push(sated_job(s.clone(), k, Form::Local));
+      jobs.push(sated_job(s.clone(), k, Form::Threads));
+    }
+  }
   for id in 0..10 {
     jobs.push(typed_job(id, if tier == Tier::Quick { 5 } else { 7 }));
   }
@@ -324,7 +403,7 @@ pub fn plan(tier: Tier) -> Plan {
       prop: "C03".into(),
       tier: tier_name(tier),
       engine: "E1 opseq".into(),
-      rule: "every chain of catalogue operators up to the depth bound x every event history over {next(0..2), complete, error} up to the length bound on a hot subject / hot create() head (oracle after every event), the same scripts delivered cold through create() and from_iter(), and every basic cold source; an execution is non-trivial when at least one notification reached the probe; executions are distinct by construction (distinct scenario x choice vector)".into(),
+      rule: "every chain of catalogue operators up to the depth bound x every event history over {next(0..2), complete, error} up to the length bound on a hot subject / hot create() head (oracle after every event), the same scripts delivered cold through create() and from_iter(), and every basic cold source, also observed directly by a subscriber that reports itself finished after 0, 1 or 2 notifications (prefix of the documented items, then the documented terminal); an execution is non-trivial when at least one notification reached the probe; executions are distinct by construction (distinct scenario x choice vector)".into(),
       bounds: json!(bounds),
       assumptions: vec![
         "boxing every stage (box_it) is observationally transparent; spot-checked by ten statically typed, unboxed three-stage chains run against the same model".into(),
